@@ -74,9 +74,9 @@ rfbInitTrueColourSingleTableOUT (char **table, rfbPixelFormat *in,
         inGreen = (i >> in->greenShift) & in->greenMax;
         inBlue  = (i >> in->blueShift)  & in->blueMax;
 
-        outRed   = (inRed   * out->redMax   + in->redMax / 2)   / in->redMax;
-        outGreen = (inGreen * out->greenMax + in->greenMax / 2) / in->greenMax;
-        outBlue  = (inBlue  * out->blueMax  + in->blueMax / 2)  / in->blueMax;
+        outRed   = ((uint32_t)inRed   * out->redMax   + in->redMax / 2)   / in->redMax;
+        outGreen = ((uint32_t)inGreen * out->greenMax + in->greenMax / 2) / in->greenMax;
+        outBlue  = ((uint32_t)inBlue  * out->blueMax  + in->blueMax / 2)  / in->blueMax;
 
         t[i] = ((outRed   << out->redShift)   |
                 (outGreen << out->greenShift) |
@@ -127,7 +127,7 @@ rfbInitOneRGBTableOUT (OUT_T *table, int inMax, int outMax, int outShift,
 
     for (i = 0; i < nEntries; i++) {
         if (outShift < 32) {
-            table[i] = ((OUT_T)((i * outMax + inMax / 2) / inMax)) << outShift;
+            table[i] = ((OUT_T)(((uint32_t)i * outMax + inMax / 2) / inMax)) << outShift;
         } else {
             table[i] = 0;
         }
